@@ -6,6 +6,7 @@ import CqlVerif.Drv.Storm
 import CqlVerif.Drv.Sched
 import CqlVerif.Drv.Gate
 import CqlVerif.Drv.Prep
+import CqlVerif.Drv.Events
 open CqlVerif.Drv
 
 def dispatch (stream op real : String) : Verdict :=
@@ -18,6 +19,7 @@ def dispatch (stream op real : String) : Verdict :=
   | "sched" => SchedStream.handle op real
   | "gate" => GateStream.handle op real
   | "prep" => PrepStream.handle op real
+  | "events" => EventsStream.handle op real
   | _ => { kind := "diff", detail := s!"unknown stream {stream}" }
 
 partial def loop (h : IO.FS.Stream) (out : IO.FS.Stream) : IO Unit := do
